@@ -20,6 +20,7 @@ type Frame struct {
 	Payload []byte `json:"-"`
 	Text    string `json:"text"`
 	Index   int    `json:"index"` // index among data frames of this direction on this connection
+	At      time.Time `json:"-"`  // when the proxy had read the whole frame
 }
 
 // Fault describes where to strike.  Positions: before | header | mid | lastbyte | after.
@@ -172,6 +173,14 @@ func (pr *pair) strike(kind string) {
 	case "blackhole":
 		pr.blackhole = true
 		return
+	case "close1000", "close1001":
+		// the server side ends the connection the polite way: a close frame (normal closure / going away)
+		// towards the client, then the TCP close
+		code := byte(0xE8)
+		if kind == "close1001" {
+			code = 0xE9
+		}
+		pr.c.Write([]byte{0x88, 0x02, 0x03, code})
 	case "rst":
 		for _, c := range []net.Conn{pr.c, pr.s} {
 			if tc, ok := c.(*net.TCPConn); ok {
@@ -374,9 +383,9 @@ func (p *Proxy) pump(pr *pair, src, dst net.Conn, dir string) {
 		}
 		p.mu.Lock()
 		if !isData {
-			p.frames = append(p.frames, Frame{Conn: pr.id, Dir: dir, Opcode: opcode, Fin: fin, Payload: payload, Index: -1})
+			p.frames = append(p.frames, Frame{Conn: pr.id, Dir: dir, Opcode: opcode, Fin: fin, Payload: payload, Index: -1, At: time.Now()})
 		} else if complete {
-			p.frames = append(p.frames, Frame{Conn: pr.id, Dir: dir, Opcode: msgOpcode, Fin: true, Payload: append([]byte{}, msg...), Text: string(msg), Index: dataIdx})
+			p.frames = append(p.frames, Frame{Conn: pr.id, Dir: dir, Opcode: msgOpcode, Fin: true, Payload: append([]byte{}, msg...), Text: string(msg), Index: dataIdx, At: time.Now()})
 		}
 		p.mu.Unlock()
 		buf = buf[hlen+plen:]
